@@ -35,6 +35,8 @@ type Obj struct {
 	Name   string // for globals
 	Global bool
 	Pre    bool // existed before the entry call (global or reachable from one)
+	// Released: the object was handed back to a sync.Pool (another goroutine may own it now)
+	Released bool
 }
 
 type Ptr struct {
@@ -70,6 +72,8 @@ type Buf struct {
 	Size *smt.Term // allocation size (BV64)
 	Pre  bool
 	Name string
+	// Released: the buffer belongs to an object that was handed back to a sync.Pool
+	Released bool
 }
 
 type Bytes struct {
